@@ -41,6 +41,8 @@ RULE_WALK = ("cases are transitions of the bounded TLA+ model (Gtirb.tla under t
 @plan("C03", "C04", "C16")
 def p_tree(ctx):
     tree_stages(ctx)
+    if ctx.prop in ("C03", "C04"):
+        stages.stage_repo_tests(ctx)
     if ctx.prop == "C16":
         names = ["SymX"]
         for n in names:
@@ -279,6 +281,25 @@ PLANS["C18"] = _proto("plan_c18")
 
 def replay_file(gtirb, prop, path):
     v = json.load(open(path))
+    if v.get("op", {}).get("name") == "_parse_type":
+        from . import p_typename
+        s = v["op"]["type_name"]
+        got = p_typename.parse(gtirb, s)
+        print("type name %r: expected %s; the current tree gives %s" % (s, json.dumps(v["expected"])[:300], json.dumps(got)[:300]))
+        exp_ok = isinstance(v["expected"], dict) and v["expected"].get("accepted") or isinstance(v["expected"], dict) and "name" in v["expected"]
+        same = (got["ok"] == bool(exp_ok)) and (not got["ok"] or "tree" not in v["expected"] or got["tree"] == v["expected"].get("tree", got["tree"]))
+        if same and (got["ok"] or got.get("exc") == "TypeNameError"):
+            print("the divergence does not reproduce on the current tree")
+            return 0
+        print("VIOLATION property=%s replay=%s" % (prop, path))
+        return 1
+    if "config" not in v or v["config"] not in configs.CONFIGS:
+        print("stored case (kind %s): %s" % (v.get("kind"), json.dumps(v.get("op"), default=str)[:600]))
+        print("expected:", json.dumps(v.get("expected"), default=str)[:800])
+        print("observed:", json.dumps(v.get("observed"), default=str)[:800])
+        print("this kind of case is re-executed by re-running the check: ./check %s --tier quick" % prop)
+        print("VIOLATION property=%s replay=%s" % (prop, path))
+        return 1
     consts = configs.get(v["config"])
     base = int(v.get("base", "0"))
     env = universe.Env(gtirb, consts, base=base)
